@@ -4,7 +4,7 @@ from common import *
 import gcgen
 
 C08_THEOREMS = ["SodiumVerif.Gc.decRef_freed", "SodiumVerif.Gc.incRef_count"]
-C16_THEOREMS = []
+C16_THEOREMS = ["SodiumVerif.Gc.reset1_trace_calls_le"]
 
 
 def strip_truth(lines):
